@@ -20,7 +20,7 @@ pub fn prop() -> Prop {
         max_len: 500,
         quick: 16_000,
         thorough: 400_000,
-        rule: "choice sequence -> envelope x signer set S (1-4 keys from a pool of 19: Schnorr, ECDSA, Ed25519, ML-DSA-44/65/87, SSH-Ed25519, SSH-ECDSA-P256/P384, SSH-DSA; SSH keys with SigningOptions::Ssh) x with/without metadata x post-signing transformation {none, add assertions, elide/encrypt/compress a target set disjoint from the 'signed' assertions (both modes), obscure ANOTHER signer's signature assertion / its object / its predicate, encrypt or compress the subject, encode->decode} x key list L (1-5 distinct keys) x threshold in {None, 1..|L|+1}; adversarial 'signed' assertions: signature transplanted from another subject, copy of a valid signature wrapped with forged metadata and no outer signature, outer signature by a different key, non-signature inner object. oracle: for every checked pool key k, has_signature_from(k) is Ok(true) iff k in S (before and after the transformation), never Ok(true) for k not in S; verify_* agree; threshold result == (|L ∩ S| >= t); sign()/verify() round trip identical; metadata returned for k carries exactly the signed assertions and is covered by an outer signature of k over the wrapped metadata envelope (checked with bc-components' verify directly). non-trivial: |S|>=2, or a transformation that changed an element, or an adversarial case; distinct by FNV-64 of (encoding, signer indices, transformation); end stages: the envelope as the SUBJECT of an outer node signed by two keys (verify, metadata), one element strictly inside the second signer's assertion obscured (the first must still verify), and 'signed' assertions carrying a note / a salt / added salted; the predicate 'signed' obscured by each action (every signer still verifies); one key signing twice next to a non-signer (thresholds None, 1, 2); adversarial: assertions put directly on a valid plain signature are never returned as metadata; signing through add_signatures_opt when the signer indices sum to a multiple of 3",
+        rule: "choice sequence -> envelope x signer set S (1-4 keys from a pool of 19: Schnorr, ECDSA, Ed25519, ML-DSA-44/65/87, SSH-Ed25519, SSH-ECDSA-P256/P384, SSH-DSA; SSH keys with SigningOptions::Ssh) x with/without metadata x post-signing transformation {none, add assertions, elide/encrypt/compress a target set disjoint from the 'signed' assertions (both modes), obscure ANOTHER signer's signature assertion / its object / its predicate, encrypt or compress the subject, encode->decode} x key list L (1-5 distinct keys) x threshold in {None, 1..|L|+1}; adversarial 'signed' assertions: signature transplanted from another subject, copy of a valid signature wrapped with forged metadata and no outer signature, outer signature by a different key, non-signature inner object. oracle: for every checked pool key k, has_signature_from(k) is Ok(true) iff k in S (before and after the transformation), never Ok(true) for k not in S; verify_* agree; threshold result == (|L ∩ S| >= t); sign()/verify() round trip identical; metadata returned for k carries exactly the signed assertions and is covered by an outer signature of k over the wrapped metadata envelope (checked with bc-components' verify directly). non-trivial: |S|>=2, or a transformation that changed an element, or an adversarial case; distinct by FNV-64 of (encoding, signer indices, transformation); end stages: the envelope as the SUBJECT of an outer node signed by two keys (verify, metadata), one element strictly inside the second signer's assertion obscured (the first must still verify), and 'signed' assertions carrying a note / a salt / added salted; the predicate 'signed' obscured by each action (every signer still verifies); one key signing twice next to a non-signer (thresholds None, 1, 2); adversarial: assertions put directly on a valid plain signature are never returned as metadata; signing through add_signatures_opt when the signer indices sum to a multiple of 3; an empty key list meets no threshold >= 1",
         assumptions: &["signature schemes are unforgeable; keys come from a fixed per-thread pool (ML-DSA keys are not seedable and differ per run)", "with a non-signature object under 'signed' present, Ok(true) and Err are both tolerated for a key that did sign (the library documents an error for unexpected object types); Ok(false) is not"],
         extra: None,
     }
